@@ -9,8 +9,12 @@
    items (map key -> element)    lookups walk c_entries (first entry with the key)
    weight  uint                  c_weight, arithmetic mod 2^64 written out (wadd / wsub)
    maxWeight uint, maxSize int   c_max_weight, c_max_size : N  (negative sizes: see [new], [resize], [resize_old])
-   onEvict callback              every operation returns the list of (key, value) pairs the
-                                 callback was called with, in call order
+   onEvict callback (optional)   every operation returns the list of (key, value) pairs the
+                                 callback is called with, in call order.  The callback may be nil
+                                 (New / wlru.New): the state and every result are by definition
+                                 independent of it -- the model computes the log in either case
+                                 and the harness runs both kinds of constructor, hiding the log
+                                 for the callback-less one
 
    c_stuck records that the real [normalize] loop would not terminate (empty list but
    weight > maxWeight): it is proved unreachable (WlruProofs.reach_not_stuck). *)
